@@ -1,7 +1,61 @@
 package main
 
+import (
+	"fmt"
+	"strings"
+)
+
 func (p *Program) selfTest(repo, scratch string, ov map[string][]byte, seed int64, verbose bool) (int, error) {
 	return 0, nil
 }
 
-func (ex *Exec) guardCheckSlow(st *State, fr *Frame, p PtrVal, write bool) {}
+// guardCheckSlow: guard discipline (C10). Every plain load/store of a declared field, executed by repository code
+// while checking is on, must happen with the field's guard locked (by anyone: kafka-go hands locks over), and
+// atomic-only fields must never be accessed by plain loads/stores.
+func (ex *Exec) guardCheckSlow(st *State, fr *Frame, p PtrVal, write bool) {
+	if !st.guardOn || p.Obj <= 0 {
+		return
+	}
+	name := ex.prog.funcName(fr.fn)
+	if strings.Contains(name, ".VH_") || strings.Contains(name, ".vh") || !strings.Contains(name, repoPath) {
+		return
+	}
+	key := fmt.Sprintf("%d", p.Obj)
+	for i := 0; i <= len(p.Path); i++ {
+		if i > 0 {
+			key += fmt.Sprintf(".%d", p.Path[i-1])
+		}
+		g, ok := st.guards[key]
+		if !ok {
+			continue
+		}
+		what := g.name
+		if g.mu == "atomic" {
+			ex.guardViolation(st, fr, what, "atomic-only field accessed with a plain "+rw(write))
+			return
+		}
+		if !st.lockset[g.mu] {
+			ex.guardViolation(st, fr, what, "accessed ("+rw(write)+") without holding its guard")
+		}
+		return
+	}
+}
+
+func rw(write bool) string {
+	if write {
+		return "store"
+	}
+	return "load"
+}
+
+func (ex *Exec) guardViolation(st *State, fr *Frame, field, msg string) {
+	site := strings.ReplaceAll(ex.prog.funcName(fr.fn), repoPath, "kafka")
+	id := "unguarded:" + field + "@" + site
+	ex.out.Asserts++
+	var model Model
+	if r := ex.check(st.pc, nil); r == Sat {
+		model = ex.solver.GetModel(ex.tt.Vars)
+	}
+	ex.donePending()
+	ex.recordViolation(st, "guard", id, field+" "+msg+" in "+site+" at "+st.where(), model)
+}
